@@ -129,9 +129,11 @@ func (r *fakeRepo) FetchRevision(ctx context.Context, projectPath string, revisi
 	if uv == nil {
 		return fmt.Errorf("no project %q at revision %s", projectPath, revision.ID())
 	}
+	// requirement paths are written in legal non-canonical spellings now and then (trailing slash, @v0/@v1 suffix of a
+	// path that needs none, a slash before the major suffix, doubled slash, leading ./): dawn cleans them on load
 	reqs := map[string]project.RequirementConfig{}
 	for i, q := range uv.Reqs {
-		reqs[fmt.Sprintf("r%d", i)] = project.RequirementConfig{Path: q.Path, Version: q.Version}
+		reqs[fmt.Sprintf("r%d", i)] = project.RequirementConfig{Path: spellPath(q.Path, len(uv.Version)*7+len(uv.Path)+i*3+len(uv.rev)+int(uv.rev[len(uv.rev)-1])), Version: q.Version}
 	}
 	dir := filepath.Join(destDir, filepath.FromSlash(projectPath))
 	if err := os.MkdirAll(dir, 0o700); err != nil {
@@ -155,6 +157,34 @@ func (r *fakeRepo) contentAt(projDir, revID string) *uVersion {
 		}
 	}
 	return nil
+}
+
+// spellPath returns a legal spelling of project path p that dawn's loader cleans back to p.
+func spellPath(p string, k int) string {
+	base, major := p, ""
+	if i := strings.LastIndex(p, "@v"); i >= 0 {
+		base, major = p[:i], p[i:]
+	}
+	switch k % 9 {
+	case 3:
+		return base + "/" + major
+	case 4:
+		if major == "" {
+			return base + "@v1"
+		}
+	case 5:
+		if major == "" {
+			return base + "/@v1"
+		}
+		return strings.Replace(base, "/", "//", 1) + major
+	case 6:
+		return "./" + p
+	case 7:
+		if major == "" {
+			return base + "@v0"
+		}
+	}
+	return p
 }
 
 func genUniverse(r *rand.Rand) *universe {
@@ -353,9 +383,11 @@ func (u *universe) rootConfig(r *rand.Rand) *project.Config {
 		p := u.paths[r.IntN(len(u.paths))]
 		vs := u.versions[p]
 		v := vs[r.IntN(len(vs))]
+		// a path is usually listed once; now and then the root lists it twice under two names at different versions
+		// (both requirements count: the older version's own requirements stay in the build list)
 		dup := false
 		for _, q := range cfg.Requirements {
-			dup = dup || q.Path == p
+			dup = dup || (q.Path == p && (q.Version == v.Version || r.IntN(3) != 0))
 		}
 		if !dup {
 			cfg.Requirements[fmt.Sprintf("req%d", len(cfg.Requirements))] = project.RequirementConfig{Path: p, Version: v.Version}
@@ -696,6 +728,27 @@ func c11Named(c *core.Ctx, id string) {
 					return o
 				}()})
 		}
+	case "named/noop-get-with-a-path-under-two-names":
+		// the root requires lib under two names at two versions (the older one needs legacy); a get that changes nothing
+		// (other@latest is already selected) must leave both entries, and with them the build list, as they are
+		u := specUniverse(map[string][]string{"lib v1.1.0": {"legacy v1.0.0"}, "lib v1.2.0": nil, "legacy v1.0.0": nil, "other v1.0.0": nil})
+		cfg := &project.Config{Name: "root", Requirements: map[string]project.RequirementConfig{
+			"lib": {Path: "github.com/org/r0/lib", Version: "v1.2.0"}, "lib-old": {Path: "github.com/org/r0/lib", Version: "v1.1.0"}, "other": {Path: "github.com/org/r0/other", Version: "v1.0.0"}}}
+		res := mvs.NewResolver(filepath.Join(base, "cache"), u.dialer(), nil)
+		before, _ := mvs.BuildList(ctx, cloneCfg(cfg), res)
+		for round := 0; round < 8; round++ { // the outcome used to depend on map iteration order
+			out, err := mvs.Get(ctx, cloneCfg(cfg), res, "github.com/org/r0/other@latest")
+			c.Eval(id)
+			c.Distinct(fmt.Sprintf("%s/%d", id, round))
+			var after map[string]string
+			if err == nil {
+				after, _ = mvs.BuildList(ctx, &project.Config{Name: "root", Requirements: out}, res)
+			}
+			if err != nil || !reflect.DeepEqual(before, after) {
+				c.Violation(id, id, "get-of-the-current-version-changes-the-build-list", map[string]any{"query": "github.com/org/r0/other@latest", "root": cfg.Requirements, "result": out, "error": fmt.Sprint(err), "build_list_before": before, "build_list_after": after})
+				return
+			}
+		}
 	case "named/get-lands-above-resolved-version":
 		// a@v1.1.0 requires c@v1.0.0, which requires a@v1.2.0: "get a@v1.1.0" lands on v1.2.0, and
 		// repeating it then downgrades to v1.0.0.
@@ -772,6 +825,29 @@ func mvsCase(c *core.Ctx, which, id string) {
 			}
 			if round == 0 {
 				res = newResolver(warm)
+			}
+			if round == 1 { // the root's own requirement paths in non-canonical spellings, through the file format
+				sp := &project.Config{Name: cfg.Name, Requirements: map[string]project.RequirementConfig{}}
+				k := 0
+				names := make([]string, 0, len(cfg.Requirements))
+				for n := range cfg.Requirements {
+					names = append(names, n)
+				}
+				sort.Strings(names)
+				for _, n := range names {
+					rq := cfg.Requirements[n]
+					k += 3 + len(rq.Version)
+					sp.Requirements[n] = project.RequirementConfig{Path: spellPath(rq.Path, k), Version: rq.Version}
+				}
+				f := filepath.Join(base, "respelled.toml")
+				if err := project.WriteConfigFile(f, sp); err == nil {
+					if loaded, err := project.LoadConfigFile(f); err == nil {
+						cf, kind = loaded, "respelled"
+					} else {
+						viol("build-list-error", map[string]any{"error": "loading a configuration with non-canonical requirement paths: " + err.Error(), "paths": sp.Requirements})
+						return
+					}
+				}
 			}
 			if round == 2 { // permuted requirement names
 				cf = &project.Config{Requirements: map[string]project.RequirementConfig{}}
@@ -998,7 +1074,7 @@ func runMVS(c *core.Ctx, which string) {
 		n = c.N(300, 10000)
 	}
 	var ids []string
-	for _, nm := range []string{"named/get-lands-above-resolved-version", "named/patch-repeated-moves-to-prerelease", "named/ref-at-the-newest-tagged-revision"} {
+	for _, nm := range []string{"named/get-lands-above-resolved-version", "named/patch-repeated-moves-to-prerelease", "named/ref-at-the-newest-tagged-revision", "named/noop-get-with-a-path-under-two-names"} {
 		if which == "C11" && c.Want(nm) {
 			ids = append(ids, nm)
 		}
